@@ -22,10 +22,31 @@ fn krate(suite: &str) -> &'static str {
     }
 }
 
-fn id_expr(i: &IdSpec) -> String {
+/// encoding of a named boundary scalar in the given suite
+fn boundary_bytes(suite: &str, name: &str) -> Option<Vec<u8>> {
+    use crate::common::{boundary_scalar, scalar_bytes};
+    fn enc<C: crate::common::Suite>(name: &str) -> Option<Vec<u8>> {
+        boundary_scalar::<C>(name).map(|s| scalar_bytes::<C>(&s))
+    }
+    match suite {
+        "ed25519" => enc::<frost_ed25519::Ed25519Sha512>(name),
+        "ed448" => enc::<frost_ed448::Ed448Shake256>(name),
+        "p256" => enc::<frost_p256::P256Sha256>(name),
+        "ristretto255" => enc::<frost_ristretto255::Ristretto255Sha512>(name),
+        "secp256k1" => enc::<frost_secp256k1::Secp256K1Sha256>(name),
+        _ => enc::<frost_secp256k1_tr::Secp256K1Sha256TR>(name),
+    }
+}
+
+fn id_expr(suite: &str, i: &IdSpec) -> String {
     match i {
         IdSpec::U16(n) => format!("frost::Identifier::try_from({n}u16).unwrap()"),
         IdSpec::Derived(s) => format!("frost::Identifier::derive(b{s:?}).unwrap()"),
+        // the identifier whose scalar is the named edge value of the scalar range (encoding spelled out)
+        IdSpec::Scalar(name) => match boundary_bytes(suite, name) {
+            Some(b) => format!("frost::Identifier::deserialize(&{b:?}).unwrap() /* the scalar {name} */"),
+            None => format!("todo!(\"identifier with scalar {name}\")"),
+        },
     }
 }
 
@@ -39,7 +60,7 @@ fn byte_lit(b: &[u8]) -> String {
 
 fn prelude(suite: &str, p: &Params) -> String {
     let k = krate(suite);
-    let ids: Vec<String> = p.ids.iter().map(id_expr).collect();
+    let ids: Vec<String> = p.ids.iter().map(|i| id_expr(suite, i)).collect();
     let signers: Vec<String> = p.signers.iter().map(|i| i.to_string()).collect();
     let keygen = match p.key_source {
         KeySource::Dealer => {
